@@ -77,9 +77,9 @@ def block(n, mp, yld, one, staged, P, t=1500):
                       f"implementation {'yields before answering' if yld else 'answers at once'}; all schedules with <= {P} preemptions; request data concrete (reads/writes told apart by offset)"}
 def fifo(g, mp, yld, one, P, t=1500, fsw=None):
     r = fifo0(g, mp, yld, one, P, t)
-    if fsw is not None:
+    if fsw is not None and fsw != 0:
         r["free_switches"] = fsw
-        r["bounds"] += f", <= {fsw} non-default choices at blocking points"
+        r["bounds"] += (", deterministic successor at blocking points" if fsw < 0 else f", <= {fsw} non-default choices at blocking points")
     return r
 def fifo0(g, mp, yld, one, P, t=1500):
     return {"harness": "vxH08Fifo", "args": [str(g), str(mp), b(yld), b(one)], "files": F08, "preempt": P, "reach": ["done"], "timeout_s": t,
@@ -99,11 +99,11 @@ q08 += [block(2, 0, False, True, True, 1), block(2, 2, True, True, True, 0), blo
 t08 = list(q08) + [nolock(t, a, f) for t in TT for (a, f) in ((True, False), (False, True))]
 t08 += [block(3, 0, True, True, True, 0), block(3, 2, True, True, True, 0), block(2, 0, True, True, False, 0), block(2, 2, False, True, True, 1),
         block(2, 0, False, False, True, 1), block(3, 2, False, True, False, 0), block(3, 0, False, True, True, 1), block(2, 0, False, True, False, 1),
-        fifo(3, 0, True, True, 0), fifo(3, 2, True, False, 0), fifo(3, 0, False, True, 1), fifo(3, 2, False, True, 1), fifo(2, 2, False, False, 1), fifo(2, 0, True, True, 1)]
+        fifo(3, 0, True, True, 0), fifo(3, 2, True, False, 0), fifo(3, 0, False, True, 1), fifo(3, 2, False, True, 1), fifo(2, 2, False, False, 1), fifo(2, 0, True, True, 1), fifo(8, 0, False, True, 0, fsw=-1), fifo(7, 0, False, True, 0, fsw=1), fifo(5, 2, True, True, 0, fsw=1), fifo(4, 0, False, False, 0, fsw=2)]
 w("C08", {
  "quick": q08,
  "thorough": t08,
- "outside": ["more than 3 requests on the blocked connection, more than one request held blocked, more than one other connection", "tag groups of more than 3 requests under all schedules (groups of 4 and 6: default schedule plus at most one other choice)",
+ "outside": ["more than 3 requests on the blocked connection, more than one request held blocked, more than one other connection", "tag groups of more than 3 requests under all schedules (groups of 4..8 under reduced schedule sets, stated per run)",
              "schedules needing more than the stated number of preemptions (quick: 1; the 3-request schedule harnesses run with 0 preemptions + yields inside the implementation)",
              "Tflush inside a tag group (C07)", "real TCP; the writer's behaviour on write errors (C11)"],
  "assumptions": [SCHED_ASSUME,
